@@ -33,7 +33,9 @@ def run(chk, tier):
         elif out.startswith("err") or out.startswith("panic"):
             return f"input of {L} bytes must be accepted, got {out}"
         return None
-    outs, model = chk.run_family(["default"] if quick else ["default", "release"], ops, oracle=oracle)
+    # "allfeat": belt-block built with its optional `zeroize` feature — the wide-block functions contain feature-gated code
+    # paths of their own (wiping of round temporaries), so the feature is part of the configuration space of this property
+    outs, model = chk.run_family(["default", "allfeat"] if quick else ["default", "release", "allfeat", "zeroize"], ops, oracle=oracle)
     if chk.nomodel:
         chk.broken.append({"no_model_for": ["wblock"]})
     impl = outs.get("default", [])
